@@ -104,4 +104,5 @@ def run(ctx):
                 "already contains the original; the model classifies the same "
                 "alterations (undecodable / rejected / accepted) and the classification strings are compared by digest. "
                 "evaluations = alterations; distinct non-trivial = distinct blocks")
+    kit.optimised_interpreter_probe(res, "codec")
     return res
